@@ -280,7 +280,7 @@ Fixpoint run_ops (i : N) (st : option (dstate * dstate)) (ops : list term) (s : 
   end.
 
 (* [check]: case = (conn tableSize (op ...)); see harness/go/network/vpack/zz_verif_c42_test.go *)
-Definition check (t : term) : term :=
+Definition check_conn (t : term) : term :=
   match t with
   | TL [TS "conn"; TZ n; TL ops] =>
       match new_state (Z.to_N n) with
